@@ -3,8 +3,12 @@
 Proved: the association of strategy 'distance' (_constraint_association_distance with its three nested loops, _randomize_index,
 _switch_clusters) gives every cluster floor(n/k) or floor(n/k)+1 points - counting invariants over the ghost functions cnt / sumI -
 and the property is carried by contracts through the dispatcher, constraint_predictions, constraint_kmeans (best labels),
-ConstraintKMeans.fit (labels_) and ConstraintKMeans.predict (balanced predictions).  The association of strategy 'gain' is an
-ASSUMED contract without any size claim (known finding); the bounded stand-in exercises both."""
+ConstraintKMeans.fit (labels_) and ConstraintKMeans.predict (balanced predictions).
+
+Strategy 'gain' (_constraint_association_gain: counters, randomised quota repair, moves, swaps through the transfer lists) is PROVED to keep
+"the counters count the labels" through every move and swap, so that on normal return - the function ends with an assertion on its counters -
+every cluster holds at least floor(n/k) and at most floor(n/k) + (n mod k) points: the property when n mod k <= 1.  For n mod k >= 2 the
+upper bound is all that holds (known finding), and the final assertion can fire (second known finding); the bounded stand-in exercises both."""
 import z3
 from pyvc.api import Contract, contract
 from pyvc.values import Obj, NdArr, z
@@ -236,21 +240,175 @@ class Distance(Contract):
                 "data_and_centres_not_written": z3.BoolVal(a.X.cell.writes == old["w"] and a.centers.cell.writes == old["wc"])}
 
 
-@contract(K + "::_constraint_association_gain", "C07", assumed=True)
-class Gain(Contract):
-    """ASSUMED: the association of strategies 'gain' / 'gain_p' assigns every point to one of the k clusters; nothing is assumed about
-    the sizes (KNOWN FINDING sizes-gain-n-mod-k-ge-2: they are not balanced when n mod k >= 2)"""
+def _gain_sizes(labels, n, k, lim, leftover):
+    """what the 'gain' association guarantees on normal return: every cluster holds at least floor(n/k) points and at most floor(n/k) + (n mod k)
+    - THE PROPERTY when n mod k <= 1; for n mod k >= 2 the upper bound is all there is (known finding sizes-gain-n-mod-k-ge-2)"""
+    q = z3.Int(models.fresh_name("q"))
+    return z3.ForAll([q], z3.Implies(z3.And(q >= 0, q < z(k)), z3.And(counting.cnt(labels, q, n) >= z(lim), counting.cnt(labels, q, n) <= z(lim) + z(leftover))),
+                     patterns=[counting.cnt(labels, q, n)])
+
+
+def _gain_balanced(labels, n, k, lim, leftover):
+    """the guarantee of strategy 'gain' as a caller sees it; the last clause is THE PROPERTY on the part of the domain where 'gain' has it"""
+    n, k, lim, lo = z(n), z(k), z(lim), z(leftover)
+    return {"the_quota_is_floor_of_n_over_k": z3.And(lim * k <= n, n < (lim + 1) * k),
+            "the_leftover_is_n_mod_k": lo == n - lim * k,
+            "every_point_gets_a_cluster": _between(labels, 0, k),
+            "every_cluster_has_at_least_floor_of_n_over_k_points_and_at_most_n_mod_k_more": _gain_sizes(labels, n, k, lim, lo),
+            "every_cluster_has_floor_or_ceil_of_n_over_k_points_when_n_mod_k_is_at_most_one": z3.Implies(lo <= 1, _sizes(labels, n, k, lim))}
+
+
+def _fa_pat(vs, body, pat):
+    # a trigger that is not a pattern in this state (a constant array, an if-then-else inside): the solver chooses
+    return counting._forall(vs, body, pat)
+
+
+def _gain_book(E, L):
+    """bookkeeping invariant of the 'gain' association: the counters count the labels, the transfer lists only hold points that are still
+    where they were when they asked to move (or are flagged as moved)"""
+    lab, cnts, flag, tr = L["labels"], L["counters"], L["distances_close"], L["transfer"]
+    n, k = lab.shape[0], cnts.shape[0]
+    q = z3.Int(models.fresh_name("q"))
+    a, b, p = z3.Int(models.fresh_name("ta")), z3.Int(models.fresh_name("tb")), z3.Int(models.fresh_name("tp"))
+    return {
+        "labels_are_clusters": _between(lab, 0, k),
+        "counters_count_the_labels": _fa_pat([q], z3.Implies(z3.And(q >= 0, q < z(k)), cnts.get(q) == counting.cnt(lab, q, n)), counting.cnt(lab, q, n)),
+        "every_point_is_counted_once": counting.sumI(cnts, k) == z(n),
+        "a_listed_point_not_flagged_as_moved_is_still_in_the_cluster_it_wants_to_leave": _fa_pat([a, b, p], z3.Implies(
+            tr.mem(a, b, p), z3.And(p >= 0, p < z(n), z3.Implies(flag.get(p) == 0, lab.get(p) == a))), tr.mem(a, b, p)),
+    }
+
+
+def _cell_numbers(res, upto, n, c):
+    """rows [0, upto) of a linearised matrix hold a row number in [0, n) and a column number in [0, c) (as floats: int() of them is in range)"""
+    r = z3.Int(models.fresh_name("lr"))
+    return counting._forall([r], z3.Implies(z3.And(r >= 0, r < z(upto)), z3.And(
+        res.get(r, 1) >= 0, res.get(r, 1) < z3.ToReal(z(n)), res.get(r, 2) >= 0, res.get(r, 2) < z3.ToReal(z(c)))), res.get(r, 1))
+
+
+@contract(K + "::linearize_matrix", "C07")
+class Linearize(Contract):
+    """PROVED (dense matrix, with or without extra matrices): one row per cell of the matrix, holding in columns 1 and 2 a row number and a column
+    number of the matrix; the matrix is not written.  (Which cell a row describes - r // c, r % c - is not claimed: division by a symbolic size.)"""
+    variants = [0, 1]
+
+    def setup(self, E, v):
+        n, c = E.size("n", 0), E.size("c", 0)
+        return dict(mat=E.nd("mat", (n, c)), adds=tuple(E.nd("add%d" % j, (n, c)) for j in range(v)))
 
     def requires(self, E, a):
-        return _quota(a)
+        return {"a_dense_matrix": z3.BoolVal(isinstance(a.mat, NdArr) and a.mat.ndim == 2),
+                "extra_matrices_have_the_same_shape": z3.And(*[z3.And(z(m.shape[0]) == z(a.mat.shape[0]), z(m.shape[1]) == z(a.mat.shape[1])) for m in a.adds])}
+
+    def old(self, E, a):
+        return dict(w=a.mat.cell.writes)
+
+    @staticmethod
+    def _rows(E, L):
+        res, mat = L["res"], L["mat"]
+        n, c = z(mat.shape[0]), z(mat.shape[1])
+        for j in (z(L.k), z3.simplify(z(L.k) - 1)):
+            # integer arithmetic the solver does not find by itself (products of two symbolic sizes): lemma mul_steps (lemmas/Counting.lean)
+            E.axiom(z3.Implies(z3.And(c >= 0, j >= 0), c * j >= 0))
+            E.axiom(c * (j + 1) == c * j + c)
+            E.axiom(z3.Implies(z3.And(c >= 0, j + 1 <= n), c * (j + 1) <= c * n))
+        E.used_lemmas.add("mul_steps")
+        return {"one_row_per_cell": z(res.shape[0]) == n * c,
+                "rows_of_the_matrix_rows_done_hold_their_cell_numbers": _cell_numbers(res, z(L.k) * c, n, c)}
+    loops = {3: _rows.__func__}
 
     def result(self, E, a, old):
+        n, c = z(a.mat.shape[0]), z(a.mat.shape[1])
+        rows = E.int("cells")
+        E.assume(rows == n * c)
+        return NdArr.fresh("linear", (rows, 3 + len(a.adds)), "real")
+
+    def ensures(self, E, a, res, old):
+        n, c = a.mat.shape[0], a.mat.shape[1]
+        ok = isinstance(res, NdArr) and res.ndim == 2
+        out = {"returns_a_matrix": z3.BoolVal(ok)}
+        if ok:
+            out["one_row_per_cell_and_three_columns_plus_one_per_extra_matrix"] = z3.And(z(res.shape[0]) == z(n) * z(c), z(res.shape[1]) == 3 + len(a.adds))
+            out["every_row_holds_a_row_number_and_a_column_number_of_the_matrix"] = _cell_numbers(res, z(n) * z(c), n, c)
+            out["matrix_not_written"] = z3.BoolVal(a.mat.cell.writes == old["w"])
+        return out
+
+    canaries = {"every_row_number_is_zero": lambda E, a, res, old: z3.ForAll([(r := z3.Int("r!canl"))], z3.Implies(
+        z3.And(r >= 0, r < z(a.mat.shape[0]) * z(a.mat.shape[1])), res.get(r, 1) == 0))}
+
+
+@contract(K + "::_constraint_association_gain", "C07")
+class Gain(Contract):
+    """PROVED (partial correctness, up to the assertion at the end of the function): the association of strategies 'gain' / 'gain_p' keeps
+    every point in one of the k clusters, its counters count the labels throughout (moves, swaps through the transfer lists), and on normal
+    return every cluster holds at least floor(n/k) and at most floor(n/k) + (n mod k) points: balanced when n mod k <= 1.
+    (n mod k >= 2: KNOWN FINDING sizes-gain-n-mod-k-ge-2; the final assertion can fire: KNOWN FINDING gain-assert-under-filled-cluster.)"""
+    variants = ["gain", "gain_p"]
+    max_paths = 20000
+    sequential = True
+    setup = Distance.setup
+    symbolic_dicts = {"transfer": "pairlists"}
+    loop_modifies = {1: ["leftclose"], 2: ["leftclose"], 3: ["transfer"], 4: ["transfer"]}
+
+    def requires(self, E, a):
+        counting.track(E, a.labels)
+        counting.track(E, a.counters, want_sum=True)
+        out = _quota(a)
+        if a.strategy == "gain":
+            out["labels_come_from_a_previous_association"] = _between(a.labels, 0, a.centers.shape[0])
+        return out
+
+    def old(self, E, a):
+        return dict(w=a.X.cell.writes, wc=a.centers.cell.writes, ns=len(E._sum_apps_for_path()))
+
+    # loop 0: for i in labels: counters[i] += 1
+    @staticmethod
+    def _count(E, L):
+        lab, cnts = L["labels"], L["counters"]
+        k = cnts.shape[0]
+        counting.cnt_step(E, lab, L.k)
+        q = z3.Int(models.fresh_name("q"))
+        body = z3.Implies(z3.And(q >= 0, q < z(k)), cnts.get(q) == counting.cnt(lab, q, L.k))
+        return {"labels_are_clusters": _between(lab, 0, k),
+                "counters_count_the_labels_seen_so_far": _fa_pat([q], body, counting.cnt(lab, q, L.k)),
+                "points_seen_so_far_are_counted_once": counting.sumI(cnts, k) == z(L.k)}
+
+    # loops 1, 2: the randomised quota repair only writes leftclose and sumi
+    @staticmethod
+    def _repair(E, L):
+        return {"one_flag_per_cluster": z(L["leftclose"].shape[0]) == z(L["counters"].shape[0])}
+
+    loops = {0: _count.__func__, 1: _repair.__func__, 2: _repair.__func__, 3: _gain_book, 4: _gain_book}
+
+    def result(self, E, a, old):
+        n, k = a.X.shape[0], a.centers.shape[0]
         for arr in (a.labels, a.counters, a.leftclose, a.distances_close):
             E.note_write(arr)
             E._havoc_cell(arr, arr.cell.name)
-        E.assume(_between(a.labels, 0, a.centers.shape[0]))
+        E.assume(_between(a.labels, 0, k))
+        E.assume(_gain_sizes(a.labels, n, k, a.limit, a.leftover))
         E.trace.append(dict(op="_constraint_association", labels=a.labels, strategy=a.strategy, limit=a.limit, leftover=a.leftover, X=a.X, centers=a.centers))
-        return NdArr.fresh("distances", (a.X.shape[0], a.centers.shape[0]), "real")
+        return NdArr.fresh("distances", (n, k), "real")
+
+    def ensures(self, E, a, res, old):
+        n, k = a.X.shape[0], a.centers.shape[0]
+        # `assert (counters < ave).sum() <= 0`: the number of counters below the quota is 0 (ghost count of the mask, pyvc/models.py mask_info)
+        counting.sum_one_out(E, a.counters, k, z(a.limit) * z(k), a.limit)
+        cn = a.counters
+        return {"every_point_gets_a_cluster": _between(a.labels, 0, k),
+                # steps of the argument, each a hypothesis of the next (sequential contract)
+                "the_final_check_passed_so_no_counter_is_below_the_quota": _fa(k, lambda c: cn.get(c) >= z(a.limit), "c"),
+                "the_counters_add_up_to_n_so_no_counter_exceeds_the_quota_by_more_than_n_mod_k": _fa(k, lambda c: cn.get(c) <= z(a.limit) + z(a.leftover), "c"),
+                "every_cluster_has_at_least_floor_of_n_over_k_points_and_at_most_n_mod_k_more": _gain_sizes(a.labels, n, k, a.limit, a.leftover),
+                "returns_the_point_by_centre_distances": z3.BoolVal(isinstance(res, NdArr) and res.ndim == 2) if not (isinstance(res, NdArr) and res.ndim == 2)
+                else z3.And(z(res.shape[0]) == z(n), z(res.shape[1]) == z(k)),
+                "data_and_centres_not_written": z3.BoolVal(a.X.cell.writes == old["w"] and a.centers.cell.writes == old["wc"])}
+
+    def signals(self, E, a, exc, old):
+        if exc == "AssertionError":
+            # the function checks its own result: a cluster left under the quota is reported, not returned (known finding when it happens)
+            return {"only_the_final_check_of_the_counters_raises": z3.BoolVal(True)}
+        return None
 
 
 @contract(K + "::_constraint_association", "C07")
@@ -261,7 +419,10 @@ class Association(Contract):
     inline_at_calls = True
 
     def requires(self, E, a):
-        return _quota(a)
+        out = _quota(a)
+        if a.strategy == "gain":
+            out["labels_come_from_a_previous_association"] = _between(a.labels, 0, a.centers.shape[0])
+        return out
 
     def old(self, E, a):
         return dict(tl=len(E.trace))
@@ -275,11 +436,15 @@ class Association(Contract):
             "every_point_gets_a_cluster": _between(a.labels, 0, k)}
         if a.strategy in ("distance", "distance_p"):
             out["every_cluster_has_floor_or_ceil_of_n_over_k_points"] = _sizes(a.labels, n, k, a.limit)
+        if a.strategy in ("gain", "gain_p"):
+            out["every_cluster_has_at_least_floor_of_n_over_k_points_and_at_most_n_mod_k_more"] = _gain_sizes(a.labels, n, k, a.limit, a.leftover)
         return out
 
     def signals(self, E, a, exc, old):
         if exc == "ValueError":
             return {"only_an_unknown_strategy_raises": z3.BoolVal(a.strategy not in ("distance", "distance_p", "gain", "gain_p"))}
+        if exc == "AssertionError":
+            return {"only_the_final_check_of_the_gain_association_raises": z3.BoolVal(a.strategy in ("gain", "gain_p"))}
         return None
 
 
@@ -322,7 +487,14 @@ class Predictions(Contract):
             out["batch_not_written"] = z3.BoolVal(a.X.cell.writes == old["w"])
             if a.strategy == "distance_p":
                 out.update(_balanced(labels, a.X.shape[0], a.centers.shape[0], calls[0]["limit"]))
+            else:
+                out.update(_gain_balanced(labels, a.X.shape[0], a.centers.shape[0], calls[0]["limit"], calls[0]["leftover"]))
         return out
+
+    def signals(self, E, a, exc, old):
+        if exc == "AssertionError":
+            return {"only_the_final_check_of_the_gain_association_raises": z3.BoolVal(a.strategy == "gain_p")}
+        return None
 
 
 @contract(K + "::constraint_kmeans", "C07")
@@ -342,9 +514,13 @@ class Driver(Contract):
 
     def requires(self, E, a):
         # what ConstraintKMeans.fit establishes: the initial k-means used at most half of the budget
-        return {"n>=k": z(a.X.shape[0]) >= z(a.centers.shape[0]), "budget_left": z3.And(z(a.iter) >= 0, z(a.iter) < z(a.max_iter)),
-                "labels_are_int32_one_per_point": z3.And(z3.BoolVal(getattr(a.labels.cell, "dtype_name", None) == "int32"), z(a.labels.shape[0]) == z(a.X.shape[0])),
-                "centres_have_the_data_dimension": z(a.centers.shape[1]) == z(a.X.shape[1])}
+        out = {"n>=k": z(a.X.shape[0]) >= z(a.centers.shape[0]), "budget_left": z3.And(z(a.iter) >= 0, z(a.iter) < z(a.max_iter)),
+               "labels_are_int32_one_per_point": z3.And(z3.BoolVal(getattr(a.labels.cell, "dtype_name", None) == "int32"), z(a.labels.shape[0]) == z(a.X.shape[0])),
+               "centres_have_the_data_dimension": z(a.centers.shape[1]) == z(a.X.shape[1])}
+        if a.strategy == "gain":
+            # 'gain' starts from the labels it is given (k-means labels or random clusters, see ConstraintKMeans.constraint_kmeans)
+            out["initial_labels_are_clusters"] = _between(a.labels, 0, a.centers.shape[0])
+        return out
 
     def old(self, E, a):
         return dict(tl=len(E.trace), w=a.X.cell.writes)
@@ -353,7 +529,7 @@ class Driver(Contract):
         # at a call site: fresh results; the quota the associations were given is a ghost of the summary (constrained by ensures)
         n, k = a.X.shape[0], a.centers.shape[0]
         lab = NdArr.fresh("best_labels", (n,), "int")
-        E.trace.append(dict(op="_constraint_association", labels=lab, strategy=a.strategy, limit=E.int("limit"), leftover=None, X=a.X, centers=a.centers))
+        E.trace.append(dict(op="_constraint_association", labels=lab, strategy=a.strategy, limit=E.int("limit"), leftover=E.int("leftover"), X=a.X, centers=a.centers))
         return (lab, NdArr.fresh("best_centers", (k, a.centers.shape[1]), "real"), E.real("best_inertia"), None, E.int("iter"), [])
 
     @staticmethod
@@ -377,6 +553,11 @@ class Driver(Contract):
             out["live_labels_are_balanced"] = z3.And(_between(L["labels"], 0, k), _sizes(L["labels"], n, k, L["limit"]))
             if bi is not None and ok:
                 out["best_labels_are_balanced"] = z3.And(_between(bl, 0, k), _sizes(bl, n, k, L["limit"]))
+        if L["strategy"] == "gain":
+            n, k = L["X"].shape[0], L["n_clusters"]
+            out["live_labels_keep_the_gain_guarantee"] = z3.And(_between(L["labels"], 0, k), _gain_sizes(L["labels"], n, k, L["limit"], L["leftover"]))
+            if bi is not None and ok:
+                out["best_labels_keep_the_gain_guarantee"] = z3.And(_between(bl, 0, k), _gain_sizes(bl, n, k, L["limit"], L["leftover"]))
         return out
     loops = {0: _inv.__func__}
     loop_ignore = {0: ["all_centers"]}      # only appended to under history=True (False in every variant)
@@ -393,19 +574,26 @@ class Driver(Contract):
             out["every_association_uses_the_callers_strategy"] = z3.BoolVal(all(t["strategy"] == a.strategy for t in calls) and len(calls) >= 1)
             if a.strategy == "distance" and isinstance(labels, NdArr) and calls:
                 out.update(_balanced(labels, a.X.shape[0], a.centers.shape[0], calls[0]["limit"]))
+            if a.strategy == "gain" and isinstance(labels, NdArr) and calls:
+                out.update(_gain_balanced(labels, a.X.shape[0], a.centers.shape[0], calls[0]["limit"], calls[0]["leftover"]))
         return out
 
 
 Distance.canaries = {"every_cluster_has_exactly_the_quota": lambda E, a, res, old: z3.ForAll(
     [(q := z3.Int("q!can"))], z3.Implies(z3.And(q >= 0, q < z(a.centers.shape[0])), counting.cnt(a.labels, q, a.X.shape[0]) == z(a.limit)))}
+Gain.canaries = {
+    # must NOT be provable: 'gain' does not keep every cluster within floor/ceil when n mod k >= 2 (known finding), and the leftover points go somewhere
+    "every_cluster_has_floor_or_ceil_of_n_over_k_points_whatever_n_mod_k": lambda E, a, res, old: _sizes(a.labels, a.X.shape[0], a.centers.shape[0], a.limit),
+    "every_cluster_has_exactly_the_quota": lambda E, a, res, old: z3.ForAll(
+        [(q := z3.Int("q!cang"))], z3.Implies(z3.And(q >= 0, q < z(a.centers.shape[0])), counting.cnt(a.labels, q, a.X.shape[0]) == z(a.limit)))}
 Switch.canaries = {"labels_never_change": lambda E, a, res, old: a.labels.cell.term == old["l0"].cell.term}
 Randomize.canaries = {"index_never_changes": lambda E, a, res, old: z3.BoolVal(a.index.cell.writes == 0)}
 Driver.canaries = {"stops_strictly_before_max_iter": lambda E, a, res, old: z(res[4]) < z(a.max_iter)}
 
 
-def _ckm(E, balanced, weights_none=True):
+def _ckm(E, balanced, weights_none=True, strategy="distance"):
     f = dict(n_clusters=E.size("k", 1), init="k-means++", n_init=10, max_iter=E.size("max_iter", 1), tol=E.real("tol"), verbose=0,
-             random_state=None, copy_x=True, algorithm="lloyd", balanced_predictions=balanced, strategy="distance", kmeans0=True,
+             random_state=None, copy_x=True, algorithm="lloyd", balanced_predictions=balanced, strategy=strategy, kmeans0=True,
              history=False, learning_rate=1)
     s = E.new_obj(C + "::ConstraintKMeans", f)
     k, d = s.fields["n_clusters"], E.size("d", 1)
@@ -416,11 +604,11 @@ def _ckm(E, balanced, weights_none=True):
 
 @contract(C + "::ConstraintKMeans.predict", "C07")
 class Predict(Contract):
-    variants = [(True, True), (False, True), (False, False)]
+    variants = [(True, True), (False, True), (False, False), (True, True, "gain"), (False, True, "gain")]
 
     def setup(self, E, v):
-        balanced, wnone = v
-        s = _ckm(E, balanced, wnone)
+        balanced, wnone = v[0], v[1]
+        s = _ckm(E, balanced, wnone, v[2] if len(v) > 2 else "distance")
         return dict(self=s, X=E.nd("X", (E.size("n", 1), s.fields["cluster_centers_"].shape[1])), _v=v)
 
     def requires(self, E, a):
@@ -434,24 +622,28 @@ class Predict(Contract):
         assoc = [t for t in tr if t["op"] == "_constraint_association"]
         near = [t for t in tr if t["op"] == "KMeans.predict"]
         if a._v[0]:
+            strat = a.self.fields["strategy"]
             out = {"balanced_predictions_come_from_the_balanced_association_of_the_batch": z3.BoolVal(
-                len(assoc) == 1 and not near and res is assoc[0]["labels"] and assoc[0]["strategy"] == "distance_p"
+                len(assoc) == 1 and not near and res is assoc[0]["labels"] and assoc[0]["strategy"] == strat + "_p"
                 and assoc[0]["centers"] is a.self.fields["cluster_centers_"] and assoc[0]["X"] is a.X)}
             if len(assoc) == 1 and isinstance(res, NdArr):
-                out.update(_balanced(res, a.X.shape[0], a.self.fields["n_clusters"], assoc[0]["limit"]))
+                if strat == "distance":
+                    out.update(_balanced(res, a.X.shape[0], a.self.fields["n_clusters"], assoc[0]["limit"]))
+                else:
+                    out.update(_gain_balanced(res, a.X.shape[0], a.self.fields["n_clusters"], assoc[0]["limit"], assoc[0]["leftover"]))
             return out
         return {"without_balanced_predictions_the_nearest_centre": z3.BoolVal(len(near) == 1 and not assoc and res is near[0]["result"] and near[0]["X"] is a.X)}
 
 
 @contract(C + "::ConstraintKMeans.fit", "C07")
 class Fit(Contract):
-    """fit with strategy 'distance': labels_ are balanced, n_iter_ <= max_iter"""
-    variants = [(k0, hw) for k0 in (True, False) for hw in (False, True)]
+    """fit: labels_ are balanced (strategy 'distance') / keep the guarantee of the 'gain' association, n_iter_ <= max_iter"""
+    variants = [(k0, hw) for k0 in (True, False) for hw in (False, True)] + [(k0, False, "gain") for k0 in (True, False)]
     loops = {0: lambda E, L: {"centers_shape": z(L["centers"].shape[0]) == z(L["self"].fields["n_clusters"])}}
 
     def setup(self, E, v):
-        kmeans0, has_w = v
-        s = _ckm(E, False)
+        kmeans0, has_w = v[0], v[1]
+        s = _ckm(E, False, strategy=v[2] if len(v) > 2 else "distance")
         s.fields["kmeans0"] = kmeans0
         s.fields["random_state"] = E.int("seed")
         for f in ("cluster_centers_", "weights_"):
@@ -472,7 +664,9 @@ class Fit(Contract):
         if isinstance(lab, NdArr):
             calls = [t for t in E.trace if t["op"] == "_constraint_association"]
             out["one_label_per_training_point"] = z(lab.shape[0]) == z(a.X.shape[0])
-            if calls:
+            if calls and s.fields["strategy"] == "gain":
+                out.update(_gain_balanced(lab, a.X.shape[0], s.fields["n_clusters"], calls[-1]["limit"], calls[-1]["leftover"]))
+            elif calls:
                 out.update(_balanced(lab, a.X.shape[0], s.fields["n_clusters"], calls[-1]["limit"]))
             else:
                 out["labels_come_from_the_association"] = z3.BoolVal(False)
@@ -483,9 +677,13 @@ class Fit(Contract):
 
 
 META = dict(
-    level="proof", assumptions=["A1", "A2", "A3", "A6", "A7", "A9"], lean_files=["lemmas/Counting.lean"],
-    trusted=["ASSUMED: _constraint_association_gain (strategies gain / gain_p) assigns every point to one of the k clusters; NOTHING is assumed or proved "
-             "about its sizes (known finding sizes-gain-n-mod-k-ge-2: not balanced when n mod k >= 2) - bounded stand-in",
+    level="proof", assumptions=["A1", "A2", "A3", "A6", "A7", "A9"], lean_files=["lemmas/Counting.lean", "lemmas/Sums.lean"],
+    trusted=["the transfer lists of the 'gain' association are abstracted (pyvc/dicts.py SymListDict): per key the SET of points listed, the head "
+             "of a non-empty list is some member, `del l[0]` may or may not remove it from the set, the first components (gains) are unconstrained - "
+             "an over-approximation of the concrete lists, sound for the invariants proved; the order bisect.insort keeps is not modelled",
+             "partial correctness of the 'gain' association: its final `assert` may fire (known finding gain-assert-under-filled-cluster); "
+             "an exception raised by a callee under contract is not propagated into the caller's obligations (callers are proved for normal returns)",
+             "numpy.argmin(m, axis=1) returns a column position per row (that it is a smallest entry is not modelled)",
              "ASSUMED numpy/scikit-learn models (pyvc/permmodel.py): argsort returns a permutation of the positions along the axis (with its inverse as a "
              "ghost function), min/max return an attained bound, random.rand in [0,1), random.permutation a bijection, euclidean_distances a "
              "non-negative (rows x rows) matrix, paired integer indexing a[i_, j_]; KMeans.fit returns int32 labels in [0,k), n_iter_ <= max_iter; "
@@ -494,6 +692,7 @@ META = dict(
              "pigeonhole in three forms, injective => surjective on [0,n)) are instantiated per event; the schemas themselves are proved in "
              "lemmas/Counting.lean (Lean 4 + Mathlib, run by this check); the correspondence z3 instance <-> Lean statement is by inspection",
              "integers are mathematical (int32 counters do not overflow for n < 2^31)"],
-    not_applicable=["sizes under strategy 'gain' (genuinely violated: known finding); centres finite (floating point); termination of the "
+    not_applicable=["the exact floor/ceil sizes under strategy 'gain' when n mod k >= 2 (genuinely violated: known finding; proved: at least floor(n/k), at most "
+                    "floor(n/k) + n mod k); centres finite (floating point); termination of the "
                     "association loops (partial correctness only: the while loop is proved to run at most once)"],
 )
